@@ -86,7 +86,8 @@ fn judge(prop: &str, projects: &[corpus::Project], case: &Value, reply: &Reply) 
             if let Some(e) = v.get("harness_error") {
                 simkit::harness_error(&format!("worker: {e} for case {case}"));
             }
-            let project = projects.iter().find(|p| p.id == case["project"].as_str().unwrap_or(""));
+            let inline = case.get("inline").and_then(crate::gen::project_from_json);
+            let project = inline.as_ref().or_else(|| projects.iter().find(|p| p.id == case["project"].as_str().unwrap_or("")));
             let vs = match prop {
                 "C09" => c09::judge(project.expect("project"), case, v),
                 _ => c11::judge(case, v),
@@ -124,17 +125,46 @@ pub fn drive(prop: &str, args: &[String]) -> i32 {
     let opts = parse_opts(args);
     let t0 = Instant::now();
     println!("sim_fs {prop} format={} tier={} VERIF_SEED={} workers={}", corpus::FORMAT, opts.tier, opts.seed, opts.workers);
-    let projects = dedup(corpus::load());
+    let mut projects = dedup(corpus::load());
     if projects.is_empty() {
         simkit::harness_error("no corpus project in this format");
     }
-    let cases: Vec<Value> = match prop {
+    let cfg = pool_cfg(opts.workers);
+    // ---- seeded workload: generated projects that load fault-free join the corpus for this run
+    let n_gen = if opts.tier == "thorough" { 1500 } else { 150 };
+    let generated: Vec<corpus::Project> = (0..n_gen).map(|i| crate::gen::generate_project(opts.seed, i as u64)).collect();
+    let gen_base: Vec<Value> = generated.iter().map(|p| json!({"kind": "read", "project": p.id, "inline": crate::gen::project_to_json(p), "faults": [], "decoys": false, "codegen": true, "gen_baseline": true})).collect();
+    let gen_replies = pool::run_all(&cfg, &gen_base);
+    let mut gen_ok = 0usize;
+    let mut extra_cases: Vec<Value> = vec![];
+    let mut extra_replies: Vec<Reply> = vec![];
+    for ((p, c), r) in generated.into_iter().zip(gen_base.into_iter()).zip(gen_replies.into_iter()) {
+        let ok = matches!(&r, Reply::Ok(v) if v["parse"]["status"] == "ok" && v["build"]["status"] == "ok" && v["codegen"]["status"] == "ok");
+        // a generated project that is rejected with an error is simply not used; a panic on it is judged like any case
+        let panicked = !matches!(&r, Reply::Ok(v) if v["parse"]["status"] != "panic" && v["build"]["status"] != "panic" && v["codegen"]["status"] != "panic");
+        if ok {
+            gen_ok += 1;
+            projects.push(p);
+        } else if panicked && prop == "C09" {
+            projects.push(p);
+            extra_cases.push(c);
+            extra_replies.push(r);
+        }
+    }
+    let mut cases: Vec<Value> = match prop {
         "C09" => c09::plan(&projects, &opts),
         _ => c11::plan(&projects, &opts),
     };
-    println!("planned {} cases over {} projects", cases.len(), projects.len());
-    let cfg = pool_cfg(opts.workers);
-    let replies = pool::run_all(&cfg, &cases);
+    for c in cases.iter_mut() {
+        if c["project"].as_str().is_some_and(|id| id.starts_with("gen/")) {
+            let p = projects.iter().find(|p| Some(p.id.as_str()) == c["project"].as_str()).unwrap();
+            c["inline"] = crate::gen::project_to_json(p);
+        }
+    }
+    println!("planned {} cases over {} projects ({} of {} generated projects load fault-free)", cases.len(), projects.len(), gen_ok, n_gen);
+    let mut replies = pool::run_all(&cfg, &cases);
+    cases.extend(extra_cases);
+    replies.extend(extra_replies);
 
     write_digests(&replies);
     let known_list = known::load(&opts.known);
